@@ -18,15 +18,16 @@ type WebSeed struct {
 	srv   *http.Server
 	Files map[string][]byte // by URL path (leading slash, unescaped)
 	// misbehaviour
-	CorruptEveryN int // flip a byte in every n-th response (0 = honest)
-	TruncateAt    int // >0: responses are cut after this many body bytes (connection closed)
-	StallMs       int // delay before answering
-	IgnoreRange   bool
-	Status        int // non-zero: answer every request with this status
+	CorruptEveryN  int // flip a byte in every n-th response (0 = honest)
+	TruncateAt     int // >0: responses are cut after this many body bytes (connection closed)
+	StallMs        int // delay before answering
+	IgnoreRange    bool
+	Status         int    // non-zero: answer every request with this status
+	OnStart, OnEnd func() // optional: called when a request arrives / when its handler returns
 
-	mu         sync.Mutex
-	Requests   []WSReq
-	inFlight   int
+	mu          sync.Mutex
+	Requests    []WSReq
+	inFlight    int
 	MaxInFlight int
 }
 
@@ -50,7 +51,11 @@ func NewWebSeed(addr string, files map[string][]byte) (*WebSeed, error) {
 func (w *WebSeed) URL() string { return "http://" + w.ln.Addr().String() + "/" }
 func (w *WebSeed) Close()      { w.srv.Close() }
 
-func (w *WebSeed) Log() []WSReq { w.mu.Lock(); defer w.mu.Unlock(); return append([]WSReq(nil), w.Requests...) }
+func (w *WebSeed) Log() []WSReq {
+	w.mu.Lock()
+	defer w.mu.Unlock()
+	return append([]WSReq(nil), w.Requests...)
+}
 
 func (w *WebSeed) handle(rw http.ResponseWriter, r *http.Request) {
 	p, err := url.PathUnescape(r.URL.EscapedPath())
@@ -72,6 +77,12 @@ func (w *WebSeed) handle(rw http.ResponseWriter, r *http.Request) {
 	}
 	w.mu.Unlock()
 	defer func() { w.mu.Lock(); w.inFlight--; w.mu.Unlock() }()
+	if w.OnStart != nil {
+		w.OnStart()
+	}
+	if w.OnEnd != nil {
+		defer w.OnEnd()
+	}
 	if w.StallMs > 0 {
 		time.Sleep(time.Duration(w.StallMs) * time.Millisecond)
 	}
